@@ -7,12 +7,13 @@ All theorems are for EVERY resolved schema type `t` with `t.wf` and every well-t
 sizes, nesting or versions; `t.wf` is evaluated on every registered API × version by the oracle on every
 run (`wf` op), and by `decide` for the examples below.
 
-Partial aspects (full statements kept below):
-* tagged fields with a tag id: the pinned tree declares none (only the zero-size `_ struct{}` markers), so
-  `Ty.wf` demands that; `decode_encode` for schemas with id-tagged fields is stated in the comment block at
-  the end and not proved.  `skip_unknown_tags` (the decoder side: tagged fields sent by a newer broker are
-  skipped) IS proved, for arbitrarily many unknown fields.
-* the hand-written Conn codec (write.go / sizeof.go) is not modelled yet (see docs/notes/C04.md).
+Tagged fields: the pinned tree declares no `tag=N` field (only the zero-size `_ struct{}` markers), and `Ty.wf`
+(hypothesis of `decode_encode`) demands that; the codec's support for them is covered by two further theorems:
+`skip_unknown_tags` (any number of tagged fields the schema does not know are skipped, value unchanged) and
+`decode_encode_tagged` (a flexible struct with id-tagged fields of arbitrary well-formed types round-trips,
+whatever the order of the distinct ids), tied to the code by a driver-registered test type with real tag=N fields.
+Partial: the hand-written Conn codec is covered by Gen/Legacy.lean (`legacy_size` per request type) and by the
+c04conn correspondence, not by a `legacy_eq_spec` theorem (see docs/notes/C04.md).
 -/
 import KafkaVerif.Lemmas.CodecRT
 import KafkaVerif.Spec.KafkaWire
@@ -158,6 +159,246 @@ theorem frame_decode_consumes_one (cfg : Cfg) (flex : Bool) (corr : Int) (t : Ty
     simp only [Int.lt_irrefl, if_false, Int.toNat_zero, Nat.not_lt_zero, and_false, skipHeaderTags]
     rw [decode_encode cfg t v hwf hwt rest _ (by omega)]
     simp [discardAll]
+
+
+/-! ### unknown tagged fields are skipped -/
+
+/-- a tagged field as a (newer) broker writes it: tag id, size, payload -/
+def encExtra (e : Nat × Bytes) : Bytes := uvarint e.1 ++ (uvarint e.2.length ++ e.2)
+
+def encExtras : List (Nat × Bytes) → Bytes
+  | [] => []
+  | e :: es => encExtra e ++ encExtras es
+
+theorem tagLookup_none (cfg : Cfg) : ∀ (ids : List Int) (ts : List Ty) (k : Nat) (id : Int),
+    (∀ i ∈ ids, i ≠ id) → tagLookup cfg ids ts k id = none
+  | [], _, _, _, _ => by simp [tagLookup]
+  | _ :: _, [], _, _, _ => by simp [tagLookup]
+  | i :: is, t :: ts, k, id, h => by
+    have h1 : i ≠ id := h i (by simp)
+    have h2 := tagLookup_none cfg is ts (k + 1) id (fun j hj => h j (by simp [hj]))
+    simp [tagLookup, h2, h1]
+
+theorem encExtras_length_ge : ∀ es : List (Nat × Bytes), es.length ≤ (encExtras es).length
+  | [] => by simp [encExtras]
+  | e :: es => by
+    have := encExtras_length_ge es
+    have := uvarint_length_pos e.1
+    simp only [encExtras, encExtra, List.length_append, List.length_cons]
+    omega
+
+/-- the tagged-field loop consumes any number of fields it does not know and leaves the slots untouched -/
+theorem taggedLoop_skips (cfg : Cfg) (lookup : Int → Option (Nat × (Dec → Res Val))) :
+    ∀ (es : List (Nat × Bytes)), (∀ e ∈ es, e.1 < 2 ^ 64 ∧ e.2.length < 2 ^ 31 ∧ lookup (toI64 e.1) = none) →
+    ∀ (slots : List Val) (r : Bytes) (rem : Nat), (encExtras es).length ≤ rem →
+      taggedLoop cfg lookup es.length slots ⟨encExtras es ++ r, rem⟩ = .ok slots ⟨r, rem - (encExtras es).length⟩
+  | [], _, slots, r, rem, _ => by simp [taggedLoop, encExtras]
+  | e :: es, h, slots, r, rem, hr => by
+    obtain ⟨h1, h2, h3⟩ := h e (by simp)
+    have ih := taggedLoop_skips cfg lookup es (fun e' he' => h e' (by simp [he']))
+    simp only [encExtras, encExtra, List.length_append] at hr
+    simp only [List.length_cons, taggedLoop, encExtras, encExtra, List.append_assoc]
+    rw [readUvarint_uvarint e.1 rem _ h1 (by omega)]
+    simp only [Res.bind]
+    rw [readUvarint_uvarint e.2.length _ _ (by omega) (by omega)]
+    simp only [h3]
+    rw [lenOfU_small cfg e.2.length h2, readLen_append cfg _ _ e.2 _ rfl (by omega)]
+    simp only []
+    rw [ih slots r _ (by omega)]
+    simp only [List.length_append]
+    congr 2
+    omega
+
+/-- **skip_unknown_tags.**  A flexible struct whose tag buffer carries any number of tagged fields with ids the
+schema does not declare (as sent by a newer broker) decodes to exactly the value it decodes to without them,
+and consumes all of them. -/
+theorem skip_unknown_tags (cfg : Cfg) (fs : List Ty) (ids : List Int) (ts : List Ty) (vs tvs : List Val)
+    (es : List (Nat × Bytes)) (r : Bytes) (rem : Nat)
+    (hwf : (Ty.struct true fs ids ts).wf = true) (hwt : wt (.struct true fs ids ts) (.struct vs tvs) = true)
+    (hes : ∀ e ∈ es, e.1 < 2 ^ 64 ∧ e.2.length < 2 ^ 31 ∧ ∀ i ∈ ids, i ≠ toI64 e.1)
+    (hn : es.length < 2 ^ 31)
+    (hrem : (encodeFields fs vs).length + ((uvarint es.length).length + (encExtras es).length) ≤ rem) :
+    decode cfg (.struct true fs ids ts) ⟨encodeFields fs vs ++ (uvarint es.length ++ (encExtras es ++ r)), rem⟩
+      = .ok (norm (.struct true fs ids ts) (.struct vs tvs))
+          ⟨r, rem - ((encodeFields fs vs).length + ((uvarint es.length).length + (encExtras es).length))⟩ := by
+  simp only [Ty.wf, Bool.and_eq_true] at hwf
+  obtain ⟨⟨⟨hwfl, hreg⟩, hmark⟩, _⟩ := hwf
+  simp only [wt, Bool.and_eq_true] at hwt
+  simp only [norm, normFields_markers ts tvs hmark hwt.2]
+  simp only [decode, if_true]
+  rw [rt_fields cfg fs (rt_list cfg fs) hwfl hreg vs hwt.1 _ rem (by omega)]
+  simp only [Res.bind]
+  rw [readUvarint_uvarint es.length _ _ (by omega) (by omega)]
+  have hge := encExtras_length_ge es
+  have hl : lenOfU cfg es.length = es.length := lenOfU_small cfg es.length hn
+  have h0 : ¬ ((es.length : Int) < 0) := by omega
+  have h1 : ¬ (cfg.bounded = true ∧ es.length > rem - (encodeFields fs vs).length - (uvarint es.length).length) := by
+    intro h; omega
+  simp only [tagCount, hl, h0, if_false, Int.toNat_natCast, h1]
+  rw [taggedLoop_skips cfg _ es (fun e he => ⟨(hes e he).1, (hes e he).2.1, tagLookup_none cfg ids ts 0 _ (hes e he).2.2⟩) _ r _ (by omega)]
+  simp only []
+  congr 2
+  omega
+
+
+/-! ### round trip of id-tagged fields (`tag=N`) -/
+
+theorem tagLookup_hit (cfg : Cfg) : ∀ (preI : List Int) (preT : List Ty) (i : Int) (t : Ty) (sufI : List Int) (sufT : List Ty) (k : Nat),
+    preI.length = preT.length → (∀ j ∈ sufI, j ≠ i) →
+    tagLookup cfg (preI ++ i :: sufI) (preT ++ t :: sufT) k i = some (k + preI.length, decode cfg t)
+  | [], [], i, t, sufI, sufT, k, _, hs => by
+    simp [tagLookup, tagLookup_none cfg sufI sufT (k + 1) i hs]
+  | [], _ :: _, _, _, _, _, _, h, _ => by simp at h
+  | _ :: _, [], _, _, _, _, _, h, _ => by simp at h
+  | a :: pI, b :: pT, i, t, sufI, sufT, k, h, hs => by
+    have ih := tagLookup_hit cfg pI pT i t sufI sufT (k + 1) (by simpa using h) hs
+    simp only [List.cons_append, tagLookup, ih, List.length_cons]
+    congr 2
+    omega
+
+theorem set_append_mid {α : Type} : ∀ (a : List α) (z v : α) (b : List α), (a ++ z :: b).set a.length v = a ++ v :: b
+  | [], _, _, _ => rfl
+  | x :: a, z, v, b => by simp [set_append_mid a z v b]
+
+theorem normFields_length : ∀ (ts : List Ty) (vs : List Val), wtFields ts vs = true → (normFields ts vs).length = ts.length
+  | [], [], _ => by simp [normFields]
+  | [], _ :: _, h => by simp [wtFields] at h
+  | _ :: _, [], h => by simp [wtFields] at h
+  | t :: ts, v :: vs, h => by
+    simp only [wtFields, Bool.and_eq_true] at h
+    simp [normFields, normFields_length ts vs h.2]
+
+theorem normFields_snoc : ∀ (ts : List Ty) (vs : List Val) (t : Ty) (v : Val), wtFields ts vs = true →
+    normFields (ts ++ [t]) (vs ++ [v]) = normFields ts vs ++ [norm t v]
+  | [], [], t, v, _ => by simp [normFields]
+  | [], _ :: _, _, _, h => by simp [wtFields] at h
+  | _ :: _, [], _, _, h => by simp [wtFields] at h
+  | a :: ts, b :: vs, t, v, h => by
+    simp only [wtFields, Bool.and_eq_true] at h
+    simp [normFields, normFields_snoc ts vs t v h.2]
+
+theorem wtFields_snoc : ∀ (ts : List Ty) (vs : List Val) (t : Ty) (v : Val), wtFields ts vs = true → wt t v = true →
+    wtFields (ts ++ [t]) (vs ++ [v]) = true
+  | [], [], t, v, _, h => by simp [wtFields, h]
+  | [], _ :: _, _, _, h, _ => by simp [wtFields] at h
+  | _ :: _, [], _, _, h, _ => by simp [wtFields] at h
+  | a :: ts, b :: vs, t, v, h, hv => by
+    simp only [wtFields, Bool.and_eq_true] at h
+    simp [wtFields, h.1, wtFields_snoc ts vs t v h.2 hv]
+
+theorem toI64_toU64 (i : Int) (h0 : 0 ≤ i) (h1 : i < 2 ^ 63) : toI64 (toU64 i) = i := by
+  unfold toI64 toU64
+  have hlt := toU_lt 64 i
+  rw [Nat.mod_eq_of_lt hlt]
+  exact toS_toU 64 i (by decide) (by omega) (by omega)
+
+/-- the side conditions on the tagged part of a struct: every tagged field is a real (non zero-size) well-formed
+type, values are well-typed with payloads below 2^31 bytes, ids are in `[0, 2^63)` -/
+def TaggedOk (cfg : Cfg) : List Int → List Ty → List Val → Prop
+  | [], [], [] => True
+  | i :: is, t :: ts, v :: vs =>
+    (0 ≤ i ∧ i < 2 ^ 63 ∧ t.zeroSize = false ∧ t.wf = true ∧ wt t v = true ∧ (encode t v).length < 2 ^ 31 ∧ RT cfg t) ∧
+      TaggedOk cfg is ts vs
+  | _, _, _ => False
+
+theorem taggedLoop_known (cfg : Cfg) (ids : List Int) (ts : List Ty) :
+    ∀ (sufI : List Int) (sufT : List Ty) (sufV : List Val) (preI : List Int) (preT : List Ty) (preV : List Val),
+      ids = preI ++ sufI → ts = preT ++ sufT → preI.length = preT.length → wtFields preT preV = true →
+      ids.Nodup → TaggedOk cfg sufI sufT sufV →
+      ∀ (r : Bytes) (rem : Nat), (encodeTagged sufI sufT sufV).length ≤ rem →
+        taggedLoop cfg (tagLookup cfg ids ts 0) (countTagged sufT) (normFields preT preV ++ zeros sufT)
+            ⟨encodeTagged sufI sufT sufV ++ r, rem⟩
+          = .ok (normFields preT preV ++ normFields sufT sufV) ⟨r, rem - (encodeTagged sufI sufT sufV).length⟩
+  | [], [], [], preI, preT, preV, _, _, _, _, _, _, r, rem, _ => by
+    simp [countTagged, taggedLoop, encodeTagged, zeros, normFields]
+  | i :: sufI, t :: sufT, v :: sufV, preI, preT, preV, hI, hT, hl, hpre, hnd, hok, r, rem, hr => by
+    obtain ⟨⟨h0, h1, hz, hwf, hwt, hlen, hrt⟩, hrest⟩ := hok
+    have hu : toU64 i < 2 ^ 64 := toU_lt 64 i
+    subst hI hT
+    have hnot : ∀ j ∈ sufI, j ≠ i := by
+      intro j hj hji
+      subst hji
+      have := List.nodup_append.1 hnd
+      have h2 := this.2.1
+      simp only [List.nodup_cons] at h2
+      exact h2.1 hj
+    have hlook := tagLookup_hit cfg preI preT i t sufI sufT 0 hl hnot
+    simp only [encodeTagged, hz, Bool.false_eq_true, if_false, List.length_append] at hr
+    simp only [countTagged, hz, Bool.false_eq_true, if_false, encodeTagged, zeros, List.append_assoc]
+    rw [show 1 + countTagged sufT = countTagged sufT + 1 by omega]
+    simp only [taggedLoop]
+    rw [readUvarint_uvarint (toU64 i) rem _ hu (by omega)]
+    simp only [Res.bind]
+    rw [readUvarint_uvarint (encode t v).length _ _ (by omega) (by omega)]
+    simp only [toI64_toU64 i h0 h1, hlook, Nat.zero_add]
+    rw [hrt hwf v hwt _ _ (by omega)]
+    simp only []
+    have hlen' : (normFields preT preV).length = preI.length := by rw [normFields_length preT preV hpre, hl]
+    rw [← hlen', set_append_mid]
+    have ih := taggedLoop_known cfg (preI ++ i :: sufI) (preT ++ t :: sufT) sufI sufT sufV (preI ++ [i]) (preT ++ [t]) (preV ++ [v])
+      (by simp) (by simp) (by simp [hl]) (wtFields_snoc preT preV t v hpre hwt) hnd hrest r
+    rw [normFields_snoc preT preV t v hpre] at ih
+    simp only [List.append_assoc, List.singleton_append] at ih
+    rw [ih _ (by omega)]
+    simp only [normFields, List.length_append]
+    congr 2
+    omega
+  | [], _ :: _, _, _, _, _, _, _, _, _, _, h, _, _, _ => by cases ‹List Val› <;> simp [TaggedOk] at h
+  | _ :: _, [], _, _, _, _, _, _, _, _, _, h, _, _, _ => by cases ‹List Val› <;> simp [TaggedOk] at h
+  | [], [], _ :: _, _, _, _, _, _, _, _, _, h, _, _, _ => by simp [TaggedOk] at h
+  | _ :: _, _ :: _, [], _, _, _, _, _, _, _, _, h, _, _, _ => by simp [TaggedOk] at h
+
+
+theorem countTagged_le_enc (cfg : Cfg) : ∀ (ids : List Int) (ts : List Ty) (tvs : List Val), TaggedOk cfg ids ts tvs →
+    countTagged ts ≤ (encodeTagged ids ts tvs).length
+  | [], [], [], _ => by simp [countTagged]
+  | i :: is, t :: ts, v :: vs, h => by
+    obtain ⟨⟨_, _, hz, _⟩, hrest⟩ := h
+    have := countTagged_le_enc cfg is ts vs hrest
+    have := uvarint_length_pos (toU64 i)
+    simp only [countTagged, encodeTagged, hz, Bool.false_eq_true, if_false, List.length_append]
+    omega
+  | [], _ :: _, tvs, h => by cases tvs <;> simp [TaggedOk] at h
+  | _ :: _, [], tvs, h => by cases tvs <;> simp [TaggedOk] at h
+  | [], [], _ :: _, h => by simp [TaggedOk] at h
+  | _ :: _, _ :: _, [], h => by simp [TaggedOk] at h
+
+/-- **Round trip of a flexible struct with id-tagged fields** (`kafka:"…,tag=N"`; the pinned tree declares none,
+the codec supports them): regular fields as in `decode_encode`, every tagged field written as (id, size, payload)
+in declaration order and read back through the tag map, whatever the order of distinct ids. -/
+theorem decode_encode_tagged (cfg : Cfg) (fs : List Ty) (ids : List Int) (ts : List Ty) (vs tvs : List Val)
+    (r : Bytes) (rem : Nat)
+    (hwfl : wfList fs = true) (hreg : fs.all regularOk = true) (hfs : wtFields fs vs = true)
+    (hnd : ids.Nodup) (hok : TaggedOk cfg ids ts tvs) (hn : (encodeTagged ids ts tvs).length < 2 ^ 31)
+    (hrem : (encode (.struct true fs ids ts) (.struct vs tvs)).length ≤ rem) :
+    decode cfg (.struct true fs ids ts) ⟨encode (.struct true fs ids ts) (.struct vs tvs) ++ r, rem⟩
+      = .ok (.struct (normFields fs vs) (normFields ts tvs))
+          ⟨r, rem - (encode (.struct true fs ids ts) (.struct vs tvs)).length⟩ := by
+  have hc := countTagged_le_enc cfg ids ts tvs hok
+  simp only [encode, if_true, List.length_append] at hrem ⊢
+  simp only [decode, if_true, List.append_assoc]
+  rw [rt_fields cfg fs (rt_list cfg fs) hwfl hreg vs hfs _ rem (by omega)]
+  simp only [Res.bind]
+  rw [readUvarint_uvarint (countTagged ts) _ _ (by omega) (by omega)]
+  have hl : lenOfU cfg (countTagged ts) = countTagged ts := lenOfU_small cfg _ (by omega)
+  have h0 : ¬ ((countTagged ts : Int) < 0) := by omega
+  have h1 : ¬ (cfg.bounded = true ∧ countTagged ts > rem - (encodeFields fs vs).length - (uvarint (countTagged ts)).length) := by
+    intro h; omega
+  simp only [tagCount, hl, h0, if_false, Int.toNat_natCast, h1]
+  have hloop := taggedLoop_known cfg ids ts ids ts tvs [] [] [] rfl rfl rfl (by simp [wtFields]) hnd hok r
+  simp only [normFields, List.nil_append] at hloop
+  rw [hloop _ (by omega)]
+  simp only []
+  congr 2
+  omega
+
+/-- the hypotheses are satisfiable: two tagged fields declared in non-ascending id order -/
+example : TaggedOk ⟨true⟩ [5, 0] [.string true false, .int32] [.str [104, 105], .int (-2)] := by
+  have h3 := uvarint_length_le10 (0 + 1 + 1 + 1) (by decide)
+  refine ⟨⟨by decide, by decide, rfl, rfl, by simp [wt], ?_, rt_all _ _⟩, ⟨by decide, by decide, rfl, rfl, by simp [wt, inRange], ?_, rt_all _ _⟩, trivial⟩
+  · simp only [encode, encString, Bool.false_eq_true, Bool.false_and, if_false, if_true, List.length_append, List.length_cons, List.length_nil]
+    omega
+  · simp [encode, encInt_length]
 
 /-! ### the model's bytes are the reference (Kafka protocol guide) bytes -/
 
